@@ -38,7 +38,9 @@ let run mem key body ends =
   let alive = List.fold_left (fun a f -> a + spilled lim f) 0 files + (if ready s then spilled lim (cur s) else 0) in
   (status_txt stt, List.length files, String.concat "" (List.map file_txt files), cur_txt s, alive,
    (if rtr = [] then "-" else String.concat "," (List.rev_map tev_txt rtr)))
-let () = main_loop (function
+let cls s = if s = "earlyeof" then "error" else s
+let () = main_loop (fun toks -> match (match toks with
+    | ["mp"; a; b; c; d; _] -> ["mp"; a; b; c; d] | ["all2"; a; b; c; _] -> ["all2"; a; b; c] | t -> t) with
   | ["mp"; mem; ct; cuts; body] ->
       let mem = int_of_string mem in
       let body = bytes_of_hex body in
@@ -60,7 +62,7 @@ let () = main_loop (function
            let diff = ref [] in
            for k = 1 to n - 1 do
              let (stt', nf', ft', ct', alive', _) = run mem key body [k; n] in
-             if stt' <> stt || nf' <> nf || ft' <> ft || ct' <> ct || alive' <> alive then diff := string_of_int k :: !diff
+             if cls stt' <> cls stt || nf' <> nf || ft' <> ft || ct' <> ct || alive' <> alive then diff := string_of_int k :: !diff
            done;
            Printf.sprintf "all2 %d %s %d%s cur=%s tmp=%d D %s leaks=0" (if n > 0 then n - 1 else 0) stt nf ft ct alive
              (if !diff = [] then "-" else String.concat "," (List.rev !diff))
